@@ -349,6 +349,8 @@ Worst(S) ==   \* check_build_status ordering
   ELSE IF "NOTSTARTED" \in S THEN "NOTSTARTED" ELSE IF "INPROGRESS" \in S THEN "INPROGRESS"
   ELSE "SUCCESSFUL"
 
+MergedIn(g, r, q) == pr[q].st = "open" /\ SrcN(q) \in DOMAIN r /\ BN(pr[q].dst) \in DOMAIN r
+                     /\ Leq(g, r[SrcN(q)], r[BN(pr[q].dst)])
 Greet(p) == IF p \in greeted THEN <<>> ELSE <<CommentOp(p, "init")>>
 Res(g, plan, status) == [g |-> g, plan |-> plan, status |-> status, pend |-> <<>>]
 
@@ -364,6 +366,9 @@ EvalPrPlan(g, r, p) ==
   \* and hides it
   ELSE IF cmd[p] # "" /\ p \in greeted /\ SrcN(p) \in DOMAIN r THEN ResetPlan(g, r, p, T, cmd[p] = "force_reset", <<>>)
   ELSE IF P.wait THEN Res(g, Greet(p), "NothingToDo")
+  \* check_dependencies: `after_pull_request=q` holds the pull request back until q is merged
+  ELSE IF P.after # 0 /\ ~ (pr[P.after].st = "merged" \/ MergedIn(g, r, P.after))
+       THEN Res(g, Greet(p) \o <<CommentOp(p, "after_pull_request")>>, "AfterPullRequest")
   ELSE IF P.st = "declined" THEN              \* handle_declined_pull_request
     LET kids == {b \in Branches : <<p, b>> \in child}
         ws == WOf(r, p)
@@ -465,7 +470,7 @@ Init ==
   /\ G = G0
   /\ refs = [n \in {BN(b) : b \in Branches} |-> IF BranchOf(n) = Hf THEN NBase ELSE Pos(BranchOf(n)) + 1]
   /\ pr = [p \in 1..NP |-> [st |-> "none", dst |-> Dev(1), appr |-> FALSE, byp |-> FALSE,
-                            wait |-> FALSE, nooct |-> FALSE]]
+                            wait |-> FALSE, nooct |-> FALSE, after |-> 0]]
   /\ child = {}
   /\ bs = <<>>
   /\ greeted = {}
@@ -544,6 +549,12 @@ ManualW(p, b) ==
         /\ refs' = Set(refs, WN(p, b), g2.n)
   /\ last' = <<"manual_w", p, b, G'.n>>
   /\ UNCHANGED <<pr, child, bs, greeted, job, lastmsg, cmd>>
+
+SetAfter(p, q) ==
+  /\ "after" \in Opts /\ Idle /\ pr[p].st = "open" /\ pr[p].after = 0 /\ q # p /\ pr[q].st # "none"
+  /\ pr' = [pr EXCEPT ![p].after = q]
+  /\ last' = <<"after", p, q>>
+  /\ UNCHANGED <<G, refs, child, bs, greeted, job, lastmsg, cmd>>
 
 Decline(p) ==
   /\ Idle /\ pr[p].st = "open" /\ ~ MergedNow(p)
@@ -708,6 +719,7 @@ Next ==
   \/ \E p \in 1..NP : PushSrc(p) \/ Approve(p) \/ Decline(p) \/ Unapprove(p)
   \/ \E p \in 1..NP, o \in Opts : SetOpt(p, o)
   \/ \E p \in 1..NP, c \in Cmds : Command(p, c)
+  \/ \E p \in 1..NP, q \in 1..NP : SetAfter(p, q)
   \/ \E p \in 1..NP : RestartSrc(p)
   \/ \E p \in 1..NP, b \in Branches : ManualW(p, b)
   \/ \E c \in 1..G.n, s \in RepStatuses : Report(c, s)
@@ -760,7 +772,8 @@ C08_Foreign == [][(job.on /\ job'.on /\ refs' # refs /\ job'.tp = job.tp) =>
                     \A n \in DOMAIN refs : Kind(n) \in {"src", "third"} => (n \in DOMAIN refs' /\ refs'[n] = refs[n])]_vars
 C05_Select == (UseQueue /\ Idle /\ QueuesCoherent(G, refs) /\ QBranches(refs) # {}) =>
                  SelectImpl(Queues(G, refs), FALSE) = SelectSpec(Queues(G, refs), FALSE)
-C12_Held == [][\A p \in 1..NP : (pr[p].wait /\ pr'[p].wait /\ pr[p].st = "open") =>
+HeldS(p) == pr[p].wait \/ (pr[p].after # 0 /\ pr[pr[p].after].st # "merged" /\ ~ MergedIn(G, refs, pr[p].after))
+C12_Held == [][\A p \in 1..NP : (HeldS(p) /\ (pr[p].wait => pr'[p].wait) /\ pr[p].st = "open") =>
                  /\ {n \in DOMAIN refs' : Kind(n) \in {"w", "qw"} /\ n[2] = p} \subseteq {n \in DOMAIN refs : Kind(n) \in {"w", "qw"} /\ n[2] = p}
                  /\ \A n \in DestNames : DestMoved(n) =>
                        (SrcN(p) \in DOMAIN refs => (Leq(G', refs[SrcN(p)], refs'[n]) => Leq(G, refs[SrcN(p)], refs[n])))]_vars
